@@ -242,6 +242,7 @@ class StmtMixin:
     def setattr(self, base, name, v):
         base = self.force(base, 'attribute base')
         if isinstance(base, SRef):
+            self.check_guard(base, name)
             owner, shape = self.world.field_owner(base.shape.cls, name)
             if owner is None and self.is_bag(base):
                 self.bag_of(base)[name] = v
